@@ -171,6 +171,19 @@ CHECKS = {
         note="The linter's view is taken from `reuse lint --json` and the tool's own reader (contributors); requests are concretised from small pools. Which command lines are usage errors / which templates cannot yield a valid header is "
              "stated by the generator from the documentation.",
         ref="5/C11"),
+    "C02": dict(
+        technique="TLA+ line grammar (TagLine.tla: Render / Denotes) vs string-level mechanism model of the reader (Read: "
+                  "shortest value before a run of terminators, strip, frame rule) model-checked by TLC with the comment-style "
+                  "table and terminator set bound from the code (generated StyleTable.tla); TLC-enumerated / sampled tag "
+                  "lines given to extract_reuse_info and, inside files, to lint --json; TLC trace validation",
+        text="For every comment style x form x frame x six tag spellings x value classes (including values that end in the "
+             "mirrored prefix) x special endings (complete) and TLC-sampled lines with indentation, trailing blanks and "
+             "stacked terminators, TLC proves Read(Render(c)) = value on the model and judges what the real reader returns, "
+             "on LF/CRLF/CR text and in files before / beyond the 4 KiB window, with the snippet marker at byte offsets "
+             "around multiples of 4096, and with a poisoned line.",
+        note="Style table and terminators are re-read from the code at every run; values ending in a terminator or in blank + "
+             "mirrored prefix are outside the domain; non-ASCII values are covered by C20 / C07.",
+        ref="5/C02"),
     "C03": dict(
         technique="TLA+ requirement CoverReq (three-valued: must / must not / unpinned) vs walk-with-pruning mechanism "
                   "model-checked by TLC; TLC-enumerated directory-context x name-class x type x VCS-wish nodes built as "
